@@ -105,6 +105,47 @@ def run_steps(steps, fetchers, inputs):
     return None if (math.isnan(res) or math.isinf(res)) else res
 
 
+ILL = "ill-conditioned in binary floating point"
+
+
+def float_shadow(tree, env):
+    """The same expression in Python floats with ordinary precedence: (value or None, ill) - `ill` is set when a
+    divisor is zero in exact arithmetic but not in floats or vice versa (rounding decides whether the result is
+    defined; the property speaks about real arithmetic 'to float tolerance', so such a case cannot be judged)."""
+    k = tree[0]
+    if k == "leaf":
+        v = tree[1]
+        v = env[v] if not isinstance(v, Fraction) else v
+        return (None, False, UNDEF) if v is UNDEF else (float(v), False, v)
+    if k in ("consumption", "production"):
+        a, ill, ea = float_shadow(tree[1], env)
+        if ea is UNDEF:
+            return None, ill, UNDEF
+        return ((max(a, 0.0), ill, max(ea, Fraction(0))) if k == "consumption" else (max(-a, 0.0), ill, max(-ea, Fraction(0))))
+    a, ia, ea = float_shadow(tree[1], env)
+    b, ib, eb = float_shadow(tree[2], env)
+    ill = ia or ib
+    if ea is UNDEF or eb is UNDEF:
+        return None, ill, UNDEF
+    if k == "/":
+        if (eb == 0) != (b == 0.0):
+            return None, True, UNDEF
+        if eb == 0:
+            return None, ill, UNDEF
+        return a / b, ill, ea / eb
+    if k == "+":
+        return a + b, ill, ea + eb
+    if k == "-":
+        return a - b, ill, ea - eb
+    if k == "*":
+        return a * b, ill, ea * eb
+    if k == "max":
+        return max(a, b), ill, max(ea, eb)
+    if k == "min":
+        return min(a, b), ill, min(ea, eb)
+    raise AssertionError(k)
+
+
 def compare(got, want):
     if want is UNDEF:
         return got is None
@@ -188,6 +229,9 @@ def check_tokens(tokens, rng, failures, counters, zero_choices=None):
                                  "detail": f"{render(tokens)} with {inputs}: {type(e).__name__}: {e}"})
                 return
             want = exact(tree, env)
+            if float_shadow(tree, env)[1]:
+                counters["ill_conditioned_skipped"] = counters.get("ill_conditioned_skipped", 0) + 1
+                continue
             if not compare(got, want):
                 failures.append({"clause": "value", "detail": f"{render(tokens)} zeros={zeros} inputs={ {k: str(v) for k, v in inputs.items()} }: "
                                                               f"engine {got}, exact {want}"})
@@ -280,6 +324,9 @@ async def check_higher_order(rng, failures, counters, budget_end):
                                  "detail": f"{tree} with {inputs}: {type(e).__name__}: {e}"})
                 return
             want = exact(tree, env)
+            if float_shadow(tree, env)[1]:
+                counters["ill_conditioned_skipped"] = counters.get("ill_conditioned_skipped", 0) + 1
+                continue
             if not compare(got, want):
                 failures.append({"clause": "value (composition API)", "detail": f"{tree} zeros={zeros} inputs={ {k: str(v) for k, v in inputs.items()} }: "
                                                                                 f"engine {got}, exact {want}"})
